@@ -481,7 +481,7 @@ func (r *nhRun) restart(hid int) {
 	r.hmu[hid-1].Lock()
 	defer r.hmu[hid-1].Unlock()
 	if err := r.startHostAndReplica(h, false); err != nil {
-		panic(fmt.Sprintf("restart of host %d failed: %v", hid, err))
+		plog.Panicf("restart of host %d failed: %v", hid, err)
 	}
 }
 
